@@ -181,8 +181,10 @@ impl Drop for ZTok {
         ZDROPS.fetch_add(1, std::sync::atomic::Ordering::SeqCst);
     }
 }
+static ZCLONES: std::sync::atomic::AtomicU64 = std::sync::atomic::AtomicU64::new(0);
 impl Clone for ZTok {
     fn clone(&self) -> ZTok {
+        ZCLONES.fetch_add(1, std::sync::atomic::Ordering::SeqCst);
         ZTok
     }
 }
@@ -196,8 +198,10 @@ pub fn zst(kind: u64) -> Vec<u64> {
     tok::reset();
     let _ = talloc::drain();
     ZDROPS.store(0, SeqCst);
+    ZCLONES.store(0, SeqCst);
     talloc::record(true);
     let mut during = 0;
+    let mut wrong_counts = 0u64;
     let r = catch_unwind(AssertUnwindSafe(|| match kind {
         0 => {
             let mut u = UniqueArc::<HeaderSlice<ZTok, [MaybeUninit<Tok>]>>::from_header_and_uninit_slice(ZTok, 2);
@@ -266,7 +270,7 @@ pub fn zst(kind: u64) -> Vec<u64> {
             during = ZDROPS.load(SeqCst);
             drop(v);
         }
-        _ => {
+        11 => {
             // shared: the clone comes back, the original goes with the other owner
             let a = Arc::new(ZTok);
             let b = a.clone();
@@ -275,6 +279,57 @@ pub fn zst(kind: u64) -> Vec<u64> {
             drop(v);
             drop(b);
         }
+        // zero-sized ELEMENTS with a destructor through the Vec-based constructors (the iterator and slice forms refuse
+        // zero-sized elements): moved, not destroyed, by the constructor; destroyed once each with the handle
+        12 => {
+            let a: Arc<[ZTok]> = Arc::from(vec![ZTok, ZTok, ZTok]);
+            during = ZDROPS.load(SeqCst);
+            if a.len() != 3 {
+                wrong_counts += 1;
+            }
+            drop(a);
+        }
+        13 => {
+            let a = Arc::from_header_and_vec(ZTok, vec![ZTok, ZTok]);
+            during = ZDROPS.load(SeqCst);
+            let b = a.clone();
+            drop(a);
+            if b.slice.len() != 2 {
+                wrong_counts += 1;
+            }
+            drop(b);
+        }
+        14 => {
+            let a: Arc<[ZTok]> = (0..5).filter(|i| i % 2 == 0).map(|_| ZTok).collect();
+            during = ZDROPS.load(SeqCst);
+            if a.len() != 3 {
+                wrong_counts += 1;
+            }
+            drop(a);
+        }
+        // copy-on-write of a SHARED zero-sized value: Clone runs once, the handle is redirected, each owner is alone
+        15 => {
+            let a = Arc::new(ZTok);
+            let mut b = a.clone();
+            let _ = Arc::make_mut(&mut b);
+            during = ZDROPS.load(SeqCst);
+            if Arc::count(&a) != 1 || Arc::count(&b) != 1 || Arc::ptr_eq(&a, &b) {
+                wrong_counts += 1;
+            }
+            drop(a);
+            drop(b);
+        }
+        _ => {
+            let a = Arc::new(ZTok);
+            let mut o = Arc::into_raw_offset(a.clone());
+            let _ = o.make_mut();
+            during = ZDROPS.load(SeqCst);
+            if Arc::count(&a) != 1 || triomphe::OffsetArc::strong_count(&o) != 1 {
+                wrong_counts += 1;
+            }
+            drop(a);
+            drop(o);
+        }
     }));
     talloc::record(false);
     let evs = talloc::drain();
@@ -282,12 +337,14 @@ pub fn zst(kind: u64) -> Vec<u64> {
     let deallocs = evs.iter().filter(|e| matches!(e, Ev::Dealloc { .. } | Ev::BadDealloc { .. })).count() as u64;
     let bad = evs.iter().filter(|e| matches!(e, Ev::BadDtor { .. } | Ev::BadRead { .. } | Ev::BadDealloc { .. } | Ev::UnknownDealloc { .. } | Ev::Overrun { .. })).count() as u64;
     let dt = evs.iter().filter(|e| matches!(e, Ev::Dtor { .. })).count() as u64;
-    vec![r.is_err() as u64, SEP, SEP, during, ZDROPS.load(SeqCst), dt, bad, allocs.wrapping_sub(deallocs)]
+    // (for the copy-on-write kinds the sixth number is the number of Clone calls)
+    let sixth = if kind >= 15 { ZCLONES.load(SeqCst) } else { dt };
+    vec![r.is_err() as u64, SEP, SEP, during, ZDROPS.load(SeqCst), sixth, bad + wrong_counts, allocs.wrapping_sub(deallocs)]
 }
 
 pub fn run1(kind: u64, n: usize, k: u64) -> Vec<u64> {
     if kind >= 28 {
-        return if kind < 40 && n == 0 && k == 0 { zst(kind - 28) } else { vec![98] };
+        return if kind < 45 && n == 0 && k == 0 { zst(kind - 28) } else { vec![98] };
     }
     if kind >= 24 {
         return if kind < 28 && n == 0 && k == 0 { plain(kind - 24) } else { vec![98] };
